@@ -720,8 +720,8 @@ def fromEnd (items : List Bytes) (k : Nat) : Option Bytes :=
 def tapLeafHash (cfg : Cfg) (sha256 : Bytes → Bytes) (xonlyOK : Bytes → Bool) (w : Witness) : Option Bytes := do
   let a ← w.hasAnnex cfg
   let cb ← fromEnd w.items (if a then 2 else 1)
-  if cmpAt Gen.cbParseCmp 0 (cb.length % 32) then none else
-  if cmpAt Gen.cbParseCmp 1 cb.length || cmpAt Gen.cbParseCmp 2 cb.length then none else
+  if cmpAt Gen.txCbParseCmp 0 (cb.length % 32) then none else
+  if cmpAt Gen.txCbParseCmp 1 cb.length || cmpAt Gen.txCbParseCmp 2 cb.length then none else
   let ver ← cb.head?
   if !xonlyOK ((cb.drop 1).take 32) then none else
   let a ← w.hasAnnex cfg
@@ -857,6 +857,82 @@ def sigHash (cfg : Cfg) (H : Hashes) (xonlyOK : Bytes → Bool) (o : TxObj) (i h
   | .legacy redeem => (sigHashLegacy H.hash256 o.tx i redeem ht).map fun n => (.int n, o)
   | .bip143 redeem ws => (sigHashBip143 cfg H o i redeem ws ht).map fun (n, o) => (.int n, o)
   | .bip341 e => (sigHashBip341 cfg H xonlyOK o i e ht).map fun (b, o) => (.bytes b, o)
+
+/-! ## consumers of the digests: which digest a signature is matched against -/
+
+/-- how `finalize_p2tr_multisig` (and `op_checksig_schnorr` / `op_checksigadd_schnorr`) read a signature
+    element: empty = no signature; 64 bytes = SIGHASH_DEFAULT; 65 bytes = the last byte is the hash type;
+    any other length makes `finalize_p2tr_multisig` raise -/
+inductive SigKind where
+  | skip
+  | sig (ht : Nat) (body : Bytes)
+  | bad
+deriving DecidableEq, Repr
+
+def schnorrSigKind (sig : Bytes) : SigKind :=
+  if sig.length = 0 then .skip
+  else if sig.length = 64 then .sig Gen.sighashDefault sig
+  else if sig.length = 65 then .sig (match sig.getLast? with | some b => b.toNat | none => 0) sig.dropLast
+  else .bad
+
+/-- the inner loop of `finalize_p2tr_multisig` for one public key: the first signature of `sigs` that verifies
+    for `point` — each candidate against the digest `self.sig_hash(input_index, hash_type)` of ITS OWN hash type,
+    computed on the object as it is now.  `verify point msg body` = `point.verify_schnorr(msg,
+    SchnorrSignature.parse(body))` (`none` = the parse raised).  Result: `some none` = the `for … else` branch
+    (no signature matched), `none` = an exception. -/
+def pickSig (cfg : Cfg) (H : Hashes) (xonlyOK : Bytes → Bool) (verify : Bytes → Bytes → Bytes → Option Bool)
+    (i : Nat) (point : Bytes) : TxObj → List Bytes → Option (Option Bytes × TxObj)
+  | o, [] => some (none, o)
+  | o, sig :: r =>
+    match schnorrSigKind sig with
+    | .skip => pickSig cfg H xonlyOK verify i point o r
+    | .bad => none
+    | .sig ht body =>
+      match sigHash cfg H xonlyOK o i ht with
+      | some (.bytes msg, o') =>
+        (match verify point msg body with
+         | some true => some (some sig, o')
+         | some false => pickSig cfg H xonlyOK verify i point o' r
+         | none => none)
+      | _ => none          -- the digest raised, or is an `int` (not a taproot input): verify_schnorr raises
+
+/-- `tx_in.witness.items.insert(0, item)` -/
+def insertWitnessFront (o : TxObj) (i : Nat) (item : Bytes) : TxObj :=
+  { o with tx := { o.tx with ins := o.tx.ins.zipIdx.map fun (p : TxIn × Nat) =>
+      if p.2 = i then { p.1 with witness := { items := item :: p.1.witness.items } } else p.1 } }
+
+/-- the outer loop over `tx_in.tap_script.points` -/
+def finalizeLoop (cfg : Cfg) (H : Hashes) (xonlyOK : Bytes → Bool) (verify : Bytes → Bytes → Bytes → Option Bool)
+    (i : Nat) (sigs : List Bytes) : TxObj → List Bytes → Option TxObj
+  | o, [] => some o
+  | o, point :: ps =>
+    match pickSig cfg H xonlyOK verify i point o sigs with
+    | none => none
+    | some (pick, o') => finalizeLoop cfg H xonlyOK verify i sigs (insertWitnessFront o' i (pick.getD [])) ps
+
+/-- Tx.finalize_p2tr_multisig up to the final `verify_input` (C06): the object with the signatures placed.
+    `points` = the x-only keys of `tx_in.tap_script.points` in that order (`none`: `tap_script is None`). -/
+def finalizeP2trMultisig (cfg : Cfg) (H : Hashes) (xonlyOK : Bytes → Bool) (verify : Bytes → Bytes → Bytes → Option Bool)
+    (o : TxObj) (i : Nat) (points : Option (List Bytes)) (sigs : List Bytes) : Option TxObj :=
+  match o.tx.ins[i]?, points with
+  | some txin, some pts =>
+    if txin.witness.items.length < 2 then none else finalizeLoop cfg H xonlyOK verify i sigs o pts
+  | _, _ => none
+
+/-- get_sig_legacy / check_sig_legacy, get_sig_segwit / check_sig_segwit: always the SIGHASH_ALL digest of the
+    algorithm's method; get_sig_* append `int_to_byte(SIGHASH_ALL)` -/
+def sigLegacyDigest (hash256 : Bytes → Bytes) (t : Tx) (i : Nat) (redeem : Option Script) : Option Nat :=
+  sigHashLegacy hash256 t i redeem Gen.sighashAll
+
+def sigSegwitDigest (cfg : Cfg) (H : Hashes) (o : TxObj) (i : Nat) (redeem ws : Option Script) : Option (Nat × TxObj) :=
+  sigHashBip143 cfg H o i redeem ws Gen.sighashAll
+
+/-- op_checksig / op_checkmultisig: the hash type is the last byte of the signature element (`none`: IndexError
+    on an empty element), the DER part what precedes it; the digest is `tx_obj.sig_hash(input_index, hash_type)` -/
+def ecdsaSigSplit (elem : Bytes) : Option (Bytes × Nat) :=
+  match elem.getLast? with
+  | some b => some (elem.dropLast, b.toNat)
+  | none => none
 
 /-! ## the object as a state machine -/
 
